@@ -62,7 +62,14 @@ EvRet ==
   /\ UNCHANGED <<g, xs, flipped>>
 EvHang == Rec.e = "hang" /\ V({<<"NoHang", FALSE>>}) /\ UNCHANGED <<g, xs, ev, flipped>>
 \* the two closing probes: exactly one value is accepted
-EvEnd == Rec.e = "end" /\ V({<<"ProbeDecides", Cardinality(ev) = 1>>}) /\ UNCHANGED <<g, xs, ev, flipped>>
+\* ... and, on a registry that never had the Referrers API and with nobody forcing the capability, the referrers-tag
+\* index lists exactly the referrers that are in the registry (a call that took the capability for "supported" would
+\* have skipped its index update)
+EvEnd == Rec.e = "end"
+         /\ V({<<"ProbeDecides", Cardinality(ev) = 1>>,
+               <<"QuiescentIndexExact", (~g.truth /\ ~flipped /\ \A k \in Rng(g.kinds) : k \notin {"setT", "setF", "flip"})
+                                          => Rng(Rec.listed) = Rng(Rec.live)>>})
+         /\ UNCHANGED <<g, xs, ev, flipped>>
 
 Step ==
   /\ l <= Len(Trace)
